@@ -236,7 +236,11 @@ class Array:
             items_in_slice = len(range(start, stop, step))
             if not isinstance(value, Sized):
                 value = list(value)
-            if len(value) == items_in_slice:
+            try:
+                number_of_values = len(value)
+            except OverflowError:
+                raise ValueError(f"Can't assign that many values to an extended slice of length {items_in_slice}.")
+            if number_of_values == items_in_slice:
                 # Create all the elements first, so that nothing is changed if one of the values is unsuitable.
                 elements = [self._create_element(v) for v in value]
                 for s, element in zip(range(start, stop, step), elements):
